@@ -826,9 +826,16 @@ def _after_fault(scn, scared, att, rec, storage, sf, E, D, samples, pt, run_exc,
                 violation = viol('compute_raised', [prop, 'compute_raised', kind, 'run:' + fkind], 'compute_results after failed run raised %r' % (e,))
         if violation is None and expect_rows < len(samples):
             rest = make_ths(storage, samples[expect_rows:], {'plaintext': pt[expect_rows:]}, 'rest')
+            rest_frame = np_frame(scn['frame'])
+            if npre + expect_rows == 0 and scn['seed'] % 2 == 0 and scn['m'] >= 3:
+                # nothing has been accepted: the next valid run is free to come with another geometry (another frame, hence trace size)
+                alt = dict(scn, frame=['slice', 1, scn['m'] - 1, None] if (scn['frame'] or ['x'])[0] != 'slice' else ['list', [0, scn['m'] - 1, 1]])
+                rest_frame = np_frame(alt['frame'])
+                E = expected_matrix(alt, samples)
+                probes['other_geometry_after_refused_first_run'] = 1
             with env.clock(env.SimClock()), env.memory(env.SimMemory()):
                 try:
-                    att.run(scared.Container(rest, frame=np_frame(scn['frame']), preprocesses=list(pps)))
+                    att.run(scared.Container(rest, frame=rest_frame, preprocesses=list(pps)))
                     ref = fresh_results(scn, sf, withpre(E, preE), withpre(D, preD))
                     if att.processed_traces != npre + len(samples):
                         violation = viol('count_changed', [prop, 'count_changed', kind, 'run:' + fkind, 'after_rest'],
@@ -836,7 +843,7 @@ def _after_fault(scn, scared, att, rec, storage, sf, E, D, samples, pt, run_exc,
                     elif not compare.bitwise(att.results, ref.results):
                         violation = viol('result_differs_from_accepted_only', [prop, 'result_differs_from_accepted_only', kind, 'run:' + fkind, 'after_rest'],
                                          'remaining rows after failed run: maxdiff=%s' % compare.maxdiff(att.results, ref.results))
-                    elif scn.get('step') and scn['mode'] == 'attack' and K is not None and preE is None:
+                    elif scn.get('step') and scn['mode'] == 'attack' and K is not None and preE is None and not probes.get('other_geometry_after_refused_first_run'):
                         violation = _convergence_after_fault(scn, scared, att, K, sf, scout, mk_cont, samples, k, bs, expect_rows, probes, kind, fkind)
                 except Exception as e:
                     first = npre + expect_rows == 0
